@@ -380,6 +380,9 @@ def _corrupt(ev):
             e["outs"][3][2] += 1
         elif op == "serb" and e["outs"][0]["res"].get("ok") == 1:
             e["outs"][0]["res"]["bytes"].append(0)
+        elif op == "cobs_ops" and any(c[0] == "patch" for c in e["calls"]):
+            c = next(c for c in e["calls"] if c[0] == "patch")
+            c[1] += 1
         elif op == "userflavor" and len(e["calls"]) >= 2:
             e["calls"].pop(0)
         elif op in ("cobs_take", "cobs_from"):
